@@ -175,7 +175,10 @@ macro_rules! impl_bop {
                     + ((1.0 - rhs.base_rate) * self.b() * rhs.u()
                         + (1.0 - self.base_rate) * rhs.b() * self.u())
                         / na;
-                Self::new(b, d, u, a)
+                // renormalise like the fusion operators: the deviation of b + d + u from 1 carried by the operands plus the
+                // rounding of the independent formulas otherwise leaves the 4-ulp window of the self-check
+                let s = b + d + u;
+                Self::new(b / s, d / s, u / s, a)
             }
 
             /// Computes the opinion on the logical disjunction of `self` and `rhs`.
@@ -189,7 +192,10 @@ macro_rules! impl_bop {
                 let u = self.u() * rhs.u()
                     + (rhs.base_rate * self.d() * rhs.u() + self.base_rate * rhs.d() * self.u())
                         / a;
-                Self::new(b, d, u, a)
+                // renormalise like the fusion operators: the deviation of b + d + u from 1 carried by the operands plus the
+                // rounding of the independent formulas otherwise leaves the 4-ulp window of the self-check
+                let s = b + d + u;
+                Self::new(b / s, d / s, u / s, a)
             }
 
             /// Computes the cumulative fusion of `self` and `rhs`.
@@ -312,7 +318,10 @@ macro_rules! impl_bop {
                 let d = di - (1.0 - ay) * k;
                 let u = ui + k;
                 let a = ay;
-                Self::new(b, d, u, a)
+                // renormalise like the fusion operators: the deviation of b + d + u from 1 carried by the operands plus the
+                // rounding of the independent formulas otherwise leaves the 4-ulp window of the self-check
+                let s = b + d + u;
+                Self::new(b / s, d / s, u / s, a)
             }
 
             /// Computes the u() favouring discounted opinion.
